@@ -71,19 +71,31 @@ def fuzz_contract(c, n, seed):
             env = c.sample(rng)
         else:
             env = {k: (sample(t, rng) if isinstance(t, api.T) else t) for k, t in c.params.items()}
-        if c.requires is not None:
-            try:
-                if not native_by_name(c.requires, env):
-                    rejected += 1
-                    continue
-            except Exception:
-                rejected += 1
-                continue
         runs += 1
+        warm = None
+        if 'self' in c.params and c.build is None and rng.random() < 0.5:
+            # history: one earlier call on the same object with other arguments (state left behind must not matter)
+            try:
+                warm = c.sample(rng) if c.sample is not None else {k: (sample(t, rng) if isinstance(t, api.T) else t) for k, t in c.params.items()}
+                if rng.random() < 0.5:
+                    # near-miss arguments: same as the checked call except for one argument
+                    keys = [k for k in warm if k != 'self']
+                    if keys:
+                        keep = rng.choice(keys)
+                        warm = dict({k: copy.deepcopy(v) for k, v in env.items() if k != 'self'}, **{keep: warm[keep]})
+                        warm['self'] = None
+            except Exception:
+                warm = None
         envc = copy.deepcopy(env)
-        rep = replay_native(c, env)
+        rep = replay_native(c, env, warmup=warm)
+        if rep.get('note') and not rep.get('confirmed') and 'requires' in rep.get('note', ''):
+            runs -= 1
+            rejected += 1
+            continue
         if rep.get('confirmed'):
             fl = {'input': {k: _jsonable(v) for k, v in envc.items()}, 'observed': rep.get('observed'), 'expected': rep.get('expected')}
+            if rep.get('warmup'):
+                fl['after_earlier_call_with'] = rep['warmup']
             # classify against pins
             if c.pins:
                 try:
